@@ -17,9 +17,9 @@ EXTENDS Common, Json
 CONSTANTS MaxSeg, MaxDepth, SelIdx, ValIdx, NameIdx, Fillers, Loose, SemiInParens,
           NoSemi       \* also generate a last declaration that is terminated by the end of the body (C17 only)
 
-Sels == <<"a", "a:hover", "@media (min-width: 10px)", "a::before", "b[x=\"{\"]", ".c > d", "e[t='a\"{']", "a:not([t=\"}\"])">>
-Names == <<"color", "--v", "$v", "margin">>
-Vals == <<"red", "\"x;y\"", "url(a:b)", "1px  solid", "'{}'", "calc(1px + (2px))", "\"it's }\"", "'a\"{b;'", "url(\"x;y\")", "f(\")\", '(')", "50%", "10% 20%">>     \* 7, 8: a string holding the other kind of quote
+Sels == <<"a", "a:hover", "@media (min-width: 10px)", "a::before", "b[x=\"{\"]", ".c > d", "e[t='a\"{']", "a:not([t=\"}\"])", "a, b", "&:hover", "a ~ b > c">>
+Names == <<"color", "--v", "$v", "margin", "-webkit-x">>
+Vals == <<"red", "\"x;y\"", "url(a:b)", "1px  solid", "'{}'", "calc(1px + (2px))", "\"it's }\"", "'a\"{b;'", "url(\"x;y\")", "f(\")\", '(')", "50%", "10% 20%", "\"a\\\"b;\"", "red !important">>     \* 7, 8: a string holding the other kind of quote
 BadVal == "f(c;d)"        \* a semicolon inside parentheses: known finding F16, generated only when SemiInParens
 
 VARIABLES doc, nodes, evs, open, nseg, hasF16
